@@ -86,7 +86,7 @@ def outcome_of(fn) -> dict:
     return {"ok": True, "data": _data_repr(res.data), "context": ctx_snapshot(res.context), "payload": res}
 
 
-def run_scenario(sc: dict, w, *, trace_mode="file", detail="hash", pipeline=None, name="trace") -> dict:
+def run_scenario(sc: dict, w, *, trace_mode="file", detail="hash", pipeline=None, name="trace", payload=None) -> dict:
     """Execute one pipeline scenario in world w. Returns dict with outcome, records, pipeline."""
     w.set_faults(sc.get("faults", []))
     first_emission = len(w.emissions)
@@ -100,7 +100,8 @@ def run_scenario(sc: dict, w, *, trace_mode="file", detail="hash", pipeline=None
         p = make_pipeline(sc["nodes"], trace=trace)
     else:
         p.trace = trace
-    payload = make_payload(sc)
+    if payload is None:
+        payload = make_payload(sc)
     pre_ctx = copy.deepcopy(sc.get("context", {}))
     out = outcome_of(lambda: p.process(payload))
     emissions = w.emissions[first_emission:]
@@ -259,3 +260,8 @@ def run_cli(argv: list[str]) -> dict:
 def trace_cfg(mode: str, detail: str, name: str = "trace") -> dict:
     path = f"{name}.ser.jsonl" if mode == "file" else f"{name}_dir"
     return {"driver": "jsonl", "output_path": path, "options": {"detail": detail}}
+
+
+def canon(x) -> str:
+    """Canonical text for equality of recorded values (NaN equals NaN, dict order ignored)."""
+    return json.dumps(x, sort_keys=True, default=repr)
